@@ -477,17 +477,10 @@ func (r *aRun) oracleC01(v *aView) {
 	}
 }
 
-// the same obligations for the second output: its own upstream, its own queue root, its own reference
-func (r *aRun) oracleC01SecondOutput(v *aView) {
-	out := r.out
-	ref2, err := newAReference(r.s.configYAML(""))
-	if err != nil {
-		out.Harness = "reference for output 2: " + err.Error()
-		return
-	}
-	ref2.outIdx = 1
-	acked, onDisk := map[string]bool{}, map[string]bool{}
-	deliv := map[string][]*forwardprotocol.EventEntry{}
+// secondOutputState collects what the second upstream acknowledged / received and what the second queue root holds after the last stop
+func (r *aRun) secondOutputState(prop string) (acked, onDisk map[string]bool, deliv map[string][]*forwardprotocol.EventEntry) {
+	acked, onDisk = map[string]bool{}, map[string]bool{}
+	deliv = map[string][]*forwardprotocol.EventEntry{}
 	for _, m := range r.srv2.msgs {
 		for i := range m.Entries {
 			st := eventStamp(&m.Entries[i])
@@ -504,7 +497,7 @@ func (r *aRun) oracleC01SecondOutput(v *aView) {
 			}
 			m, derr := decodeChunkFile(data)
 			if derr != nil {
-				r.note("C01", "altered", "queue-file-undecodable-output2", "queue file %s of the second output does not decode: %v", p, derr)
+				r.note(prop, "altered", "queue-file-undecodable-output2", "queue file %s of the second output does not decode: %v", p, derr)
 				continue
 			}
 			for i := range m.Entries {
@@ -512,6 +505,19 @@ func (r *aRun) oracleC01SecondOutput(v *aView) {
 			}
 		}
 	}
+	return
+}
+
+// the same obligations for the second output: its own upstream, its own queue root, its own reference
+func (r *aRun) oracleC01SecondOutput(v *aView) {
+	out := r.out
+	ref2, err := newAReference(r.s.configYAML(""))
+	if err != nil {
+		out.Harness = "reference for output 2: " + err.Error()
+		return
+	}
+	ref2.outIdx = 1
+	acked, onDisk, deliv := r.secondOutputState("C01")
 	saved := v.ref
 	v.ref = ref2
 	defer func() { v.ref = saved }()
@@ -1203,8 +1209,11 @@ func (r *aRun) oracleC17(v *aView) {
 
 // c18Bound() is the longest a stop may take: the listener's forced stop, then the buffer's shutdown timeout plus the hand-off timeouts around it.
 func c18Bound() time.Duration {
-	return 2*defs.IntermediateChannelTimeout + (defs.BufferShutDownTimeout + 2*defs.IntermediateChannelTimeout) + time.Second
+	return 2*defs.IntermediateChannelTimeout + time.Duration(c18Outputs)*(defs.BufferShutDownTimeout+2*defs.IntermediateChannelTimeout) + time.Second
 }
+
+// c18Outputs is the number of configured outputs of the current run (their buffers are shut down one after the other)
+var c18Outputs = 1
 
 func (r *aRun) oracleC18(v *aView) {
 	out := r.out
@@ -1227,6 +1236,19 @@ func (r *aRun) oracleC18(v *aView) {
 		st := stampOf(sr)
 		if !v.acked[st] && !v.onDisk[st] && v.dropped == 0 {
 			r.note("C18", "memory-only-at-exit", "memory-only-at-exit", "record %s was neither acknowledged nor on disk when the agent exited", st)
+		}
+	}
+	if r.srv2 != nil {
+		acked2, onDisk2, _ := r.secondOutputState("C18")
+		for _, sr := range v.full {
+			if sr.rec.Raw != "" || sr.rec.Drop {
+				continue
+			}
+			out.Obligations++
+			st := stampOf(sr)
+			if !acked2[st] && !onDisk2[st] && v.dropped == 0 {
+				r.note("C18", "memory-only-at-exit", "memory-only-at-exit-output2", "record %s was neither acknowledged by the second upstream nor in the second output's queue when the agent exited", st)
+			}
 		}
 	}
 }
